@@ -748,7 +748,6 @@ func stripLoad(v ssa.Value) ssa.Value {
 	return v
 }
 
-
 // staticClosure: roots, their closures, and everything reachable from them through static calls, go and defer
 // statements, restricted to functions accepted by keep.
 func staticClosure(roots []*ssa.Function, keep func(*ssa.Function) bool) []*ssa.Function {
